@@ -27,24 +27,24 @@ Section C14.
   Let run := search pos mv moves legal make in_check evalf is_cap is_promo cap_score mv_eqb key
                     halfmove repeated default_mv lim clock ext_stop tt_on.
 
-  Definition info_depth (o : Output mv) : option nat :=
-    match o with Info _ d _ _ _ _ _ => Some d | Bestmove _ _ => None end.
+  (* info_depth (the depth field of an info line, None for bestmove) is defined in
+     proofs/SearchInfoProofs.v *)
 
   (* for EVERY limit combination and every oracle: the info lines report depths 1, 2, ..., k in
      this order without gap or repeat (k <= the depth bound), followed by the single bestmove *)
   Theorem C14_depths_in_order : forall (s0 : St mv) (p : pos) (D : option nat),
     exists k m, (k <= match D with Some d => d | None => 255 end)%nat
-                /\ map info_depth (snd (run s0 p D)) = map Some (seq 1 k) ++ [None]
+                /\ map (info_depth mv) (snd (run s0 p D)) = map Some (seq 1 k) ++ [None]
                 /\ last (snd (run s0 p D)) (Bestmove mv default_mv) = Bestmove mv m.
   Proof. exact (depths_in_order pos mv moves legal make in_check evalf is_cap is_promo cap_score mv_eqb key
                                 halfmove repeated default_mv lim clock ext_stop tt_on). Qed.
 
   (* every reported principal variation only contains moves that pass the engine's legality test
      in the position reached so far *)
-  Fixpoint pv_ok (p : pos) (pv : list mv) : bool :=
-    match pv with [] => true | m :: t => legal p m && pv_ok (make p m) t end.
+  (* pv_ok (defined in proofs/SearchInfoProofs.v):
+       pv_ok p [] = true,  pv_ok p (m :: t) = legal p m && pv_ok (make p m) t *)
   Theorem C14_pv_checked : forall (s0 : St mv) (p : pos) (D : option nat) d sd n k sc pv,
-    In (Info mv d sd n k sc pv) (snd (run s0 p D)) -> pv_ok p pv = true /\ (length pv <= d)%nat.
+    In (Info mv d sd n k sc pv) (snd (run s0 p D)) -> pv_ok pos mv legal make p pv = true /\ (length pv <= d)%nat.
   Proof. exact (pv_checked pos mv moves legal make in_check evalf is_cap is_promo cap_score mv_eqb key
                            halfmove repeated default_mv lim clock ext_stop tt_on). Qed.
 End C14.
